@@ -213,6 +213,13 @@ def seed_defect(p: Prog, cls: str, r: random.Random):
         pad = L[i][0][: len(L[i][0]) - len(L[i][0].lstrip())]
         L.insert(i + 1, (f"{pad}integer :: {nm}", "dup"))
         return done(i + 1, ERR, "declared twice")
+    if cls == "declared_twice_same_statement":
+        c = positions(L, lambda t, g: g == "decl" and t.strip().startswith("integer :: x, i"))
+        if not c:
+            return None
+        i = r.choice(c)
+        L[i] = (L[i][0] + ", x", "dup")
+        return done(i, ERR, "declared twice")
     if cls == "masks_host":
         mv = [g.split(":")[1] for t, g in L if g.startswith("modvar:")]
         c = positions(L, lambda t, g: g.startswith("proc:") and t.startswith("  ") and not t.startswith("    ") and "iface_" not in g)
@@ -386,7 +393,7 @@ def seed_defect(p: Prog, cls: str, r: random.Random):
     raise ValueError(cls)
 
 
-CLASSES = ["declared_twice", "masks_host", "bare_end", "unknown_module", "type_not_accessible", "type_accessible_in_sibling_scope",
+CLASSES = ["declared_twice", "declared_twice_same_statement", "masks_host", "bare_end", "unknown_module", "type_not_accessible", "type_accessible_in_sibling_scope",
            "arg_undeclared", "arg_undeclared_nested", "intent_not_arg_no_args",
            "intent_not_arg", "second_contains", "contains_no_scope", "implicit_no_scope", "public_no_scope",
            "private_no_scope", "import_outside_interface", "use_after_implicit", "procedure_before_contains",
@@ -426,7 +433,10 @@ IMPORT_FORMS = ("module dm5\n  implicit none\n  type :: ta\n    integer :: i\n  
                 "    subroutine three_imports(x, y)\n      import :: kk\n      import :: tb\n      import :: ta\n      type(ta) :: x\n      type(tb) :: y\n"
                 "    end subroutine three_imports\n    subroutine import_everything(x)\n      import\n      type(tb) :: x\n    end subroutine import_everything\n"
                 "    subroutine import_all(x)\n      import, all\n      type(ta) :: x\n    end subroutine import_all\n"
-                "    subroutine import_only(x)\n      import, only: tb\n      type(tb) :: x\n    end subroutine import_only\n  end interface\nend module dm5\n")
+                "    subroutine import_only(x)\n      import, only: tb\n      type(tb) :: x\n    end subroutine import_only\n  end interface\nend module dm5\n"
+                # the type of an EXTERNAL procedure given by a separate statement, in another spelling of the name
+                "subroutine dm5_ext(y)\n  implicit none\n  real :: y\n  external foo\n  real FOO\n  double precision Bar\n  EXTERNAL bar\n"
+                "  y = foo(1.0) + bar(2.0)\nend subroutine dm5_ext\n")
 
 
 def check_valid(p: Prog):
